@@ -1,4 +1,4 @@
-CONSTANTS Vals = {0, 1}  NV = 3  MaxCalls = 1  OpsUsed = {"plus", "max", "left"}
+CONSTANTS Vals = {0, 1}  NV = 3  MaxCalls = 1  OpsUsed = {"plus", "max"}
   NoReduce = FALSE  KeyFirstOnly = FALSE  BranchLower = FALSE  KeepMemo = FALSE  SwapSecond = FALSE
 SPECIFICATION Spec
 INVARIANT PointwiseOK Canonical MemoSound
